@@ -371,6 +371,7 @@ impl<W: WorldOps> Engine<W> {
                 // stamped with the archetype's counters at the moment of the hand-over
                 let s = self.slot(wi);
                 let rec = MDirect { handle: dh, arch: ai, uid, removals: s.m.archs[ai].removals, creations: s.m.archs[ai].creations, source: "ecs_iter_destroy!", step };
+                *pc.directs_seen_by_source.entry("ecs_iter_destroy!").or_insert(0) += 1;
                 if s.m.add_direct(rec) {
                     *pc.directs_by_source.entry("ecs_iter_destroy!").or_insert(0) += 1;
                 }
